@@ -241,3 +241,63 @@ func init() {
 		Outside:     []string{"RouterAdvertisement marshal (C07/C14)", "DHCP option maps with more than 2 arbitrary entries", "payloads larger than the stated lengths"},
 	})
 }
+
+func init() {
+	ci := func(maxLoop, wall int) Config {
+		return Config{MaxLoop: maxLoop, MaxWall: wall, Stubs: map[string]bool{"concidx": true}}
+	}
+	register(&Prop{
+		ID:        "C08",
+		Technique: "bounded symbolic execution of the payload decoders on arbitrary / field-corrupted truncated inputs; panics, solver-decided loop-state repetition (non-termination) and unwinding bounds as SMT obligations",
+		Jobs: func(tier string) []Job {
+			r := []string{"done"}
+			q := tier != "thorough"
+			pick := func(a, b int64) int64 {
+				if q {
+					return a
+				}
+				return b
+			}
+			jobs := []Job{
+				{Pkg: "root", Func: "VerifC08DecodeName", Args: []int64{pick(6, 8)}, SplitN: int(pick(7, 9)), Cfg: ci(64, 1200)},
+				{Pkg: "root", Func: "VerifC08NDPOptions", Args: []int64{pick(16, 24)}, Cfg: cfg(64, 1500), Reach: r},
+				{Pkg: "root", Func: "VerifC08HopByHop", Args: []int64{pick(14, 18)}, Cfg: cfg(64, 900), Reach: r},
+				{Pkg: "root", Func: "VerifC08LLDP", Args: []int64{pick(12, 16)}, Cfg: cfg(64, 900), Reach: r},
+				{Pkg: "root", Func: "VerifC08DHCPOptions", Args: []int64{pick(246, 248)}, Cfg: cfg(300, 900), Reach: r},
+				{Pkg: "root", Func: "VerifC08_8023", Args: []int64{40}, Cfg: cfg(64, 900), Reach: r},
+				{Pkg: "root", Func: "VerifC08DNSTemplate", Args: []int64{1}, SplitN: 192, Cfg: ci(64, 600)},
+			}
+			if !q {
+				jobs = append(jobs, Job{Pkg: "root", Func: "VerifC08DNSTemplate", Args: []int64{2}, SplitN: 192, Cfg: ci(64, 1500)})
+			}
+			return jobs
+		},
+		Bounds: func(tier string) map[string]string {
+			q := tier != "thorough"
+			s := func(a, b string) string {
+				if q {
+					return a
+				}
+				return b
+			}
+			return map[string]string{
+				"decodeName":             "arbitrary buffers of length 0.." + s("6", "8") + " (one job per length), arbitrary offset, any capacity; pointer chains to the code's own recursion limit (255)",
+				"DNS question + answers": "three message templates (label / pointer question names, one or two answers, rdata with a nested label+pointer) in which " + s("each single field", "each single field and every pair of fields") + " among ANCount, label lengths, pointer targets, record type, RDLENGTH, first rdata byte is arbitrary, truncated at every offset",
+				"NDP options":            "arbitrary option bytes of length 0.." + s("16", "24"),
+				"hop-by-hop, LLDP TLVs":  "arbitrary bytes of length 0.." + s("14 / 12", "18 / 16"),
+				"DHCP options":           "240-byte header + 0.." + s("6", "8") + " arbitrary option bytes",
+				"802.3/LLC":              "frames accepted by Parse as 802.3, length 14..40",
+				"loop unwinding":         "64 iterations; non-termination decided by a loop-state repetition query",
+			}
+		},
+		Assumptions: []string{
+			"symbolic indices into the (small) buffers are case-split to concrete values (complete within the stated lengths)",
+			"stubs as in C01; DNSSL domain text uses the real puny/strings code with symbolic UTF-8 decoding",
+		},
+		Outside: []string{
+			"SSDP (net/http, bufio are not modelled)",
+			"the handler-level ProcessPacket entry points of the four handlers (ARP, DHCPv4, ICMPv6, DNS/mDNS/NBNS) beyond the payload decoders listed: not encoded in this session",
+			"DNS messages outside the templates; inputs longer than the stated lengths",
+		},
+	})
+}
